@@ -39,7 +39,7 @@ DESIGNED = [
 def gen_problem(rnd, hermitian=True, force=None):
     N = rnd.choice([1, 2, 2, 3, 3, 4]); sizes = [rnd.choice([1, 1, 2, 2, 3]) for _ in range(N)]
     if force: sizes = list(force["sizes"]); N = len(sizes)
-    if N >= 2 and rnd.random() < 0.3: sizes[rnd.randrange(1, N)] = 3          # a block other than the first one in which a partial mask is not closed
+    if N >= 2 and rnd.random() < 0.3 and not force: sizes[rnd.randrange(1, N)] = 3          # a block other than the first one in which a partial mask is not closed
     while sum(sizes) > 6:
         cand = [i for i in range(N) if sizes[i] == 2] or [i for i in range(N) if sizes[i] == 3]
         sizes[rnd.choice(cand)] -= 1
